@@ -166,10 +166,16 @@ def enum {α : Type} : Nat → List α → List (Nat × α)
   | i, a :: as => (i, a) :: enum (i + 1) as
 
 /-- handler invocations (and nested notifications) caused by one `connect()` inside the effort;
-    `task = true` there, so a nested loss never starts a second effort -/
+    `task = true` there, so a nested notification never starts a second effort.  A `connect()`
+    that finds a namespace refused calls `self.disconnect()` on the live transport before raising
+    (a requested disconnect: engine.io notifies with state 'disconnecting'). -/
 def attemptEvents {P : Type} (cfg : Cfg) (nss : List Ns) : Outcome → List (Ev P)
-  | .served acc => (enum 0 nss).map (fun (i, n) =>
-      .handler (if accepted acc i then .connect else .connectError) n)
+  | .served acc =>
+    (enum 0 nss).map (fun (i, n) =>
+      .handler (if accepted acc i then .connect else .connectError) n) ++
+    (if (Outcome.served acc).success nss then []
+     else [.notified (eioStateDuring .clientDisconnect)
+             (startsEffort cfg (eioStateDuring .clientDisconnect) true)])
   | .transport => nss.map (fun n => .handler .connectError n)
   | .lost => [.notified (eioStateDuring .transportError)
                 (startsEffort cfg (eioStateDuring .transportError) true)]
